@@ -176,6 +176,8 @@ func (g *fgen) sortOf(t types.Type) string {
 		return "(Array " + g.sortOf(u.elem) + " Bool)"
 	case realType:
 		return "Real"
+	case *seqType:
+		return "(Array Int " + g.sortOf(u.elem) + ")"
 	}
 	switch u := t.Underlying().(type) {
 	case *types.Basic:
